@@ -44,6 +44,12 @@ impl Default for Limits {
 }
 
 pub fn run(exe: &str, args: &[String], stdin: Option<&[u8]>, cwd: Option<&str>, lim: &Limits) -> std::io::Result<ProcResult> {
+    run_paced(exe, args, stdin, cwd, lim, None)
+}
+
+/// like `run`; with `pace = Some((at, pause))` the producer of stdin is slow: it writes the
+/// first `at` bytes, waits `pause`, then writes the rest and closes the pipe
+pub fn run_paced(exe: &str, args: &[String], stdin: Option<&[u8]>, cwd: Option<&str>, lim: &Limits, pace: Option<(usize, Duration)>) -> std::io::Result<ProcResult> {
     let mut cmd = Command::new(exe);
     cmd.args(args);
     if let Some(d) = cwd {
@@ -70,7 +76,21 @@ pub fn run(exe: &str, args: &[String], stdin: Option<&[u8]>, cwd: Option<&str>, 
     let mut child = cmd.spawn()?;
     if let Some(data) = stdin {
         if let Some(mut si) = child.stdin.take() {
-            let _ = si.write_all(data);
+            match pace {
+                None => {
+                    let _ = si.write_all(data);
+                }
+                Some((at, pause)) => {
+                    let data = data.to_vec();
+                    std::thread::spawn(move || {
+                        let at = at.min(data.len());
+                        let _ = si.write_all(&data[..at]);
+                        let _ = si.flush();
+                        std::thread::sleep(pause);
+                        let _ = si.write_all(&data[at..]);
+                    });
+                }
+            }
         }
     }
     // read stdout / stderr on threads so a chatty child cannot block
